@@ -350,7 +350,8 @@ class Ctx:
                 if hit:
                     self.known_hits.append((hit, sc, clause))
                 else:
-                    path = self.write_replay(scmap.get(sc), evs, clause)
+                    # at most 25 replay files per run (the first ones are the most useful)
+                    path = self.write_replay(scmap.get(sc), evs, clause) if len(self.violations) < 25 else os.path.join(EVID, "replays", "(not-written)")
                     self.violations.append((sc, clause, path))
         self.cov["traces_validated_against_impl"] += nvalid
         if len(self.cov["samples"]) < 3 and order:
